@@ -101,6 +101,12 @@ func loadEngine(repo string, overlay map[string][]byte) (*Engine, error) {
 func (e *Engine) pkgByName(name string) string { return e.pkgNames[name] }
 
 func (e *Engine) typeByString(s string) types.Type {
+	if strings.HasPrefix(s, "[]") {
+		if et := e.typeByString(s[2:]); et != nil {
+			return types.NewSlice(et)
+		}
+		return nil
+	}
 	ptr := false
 	if strings.HasPrefix(s, "*") {
 		ptr = true
